@@ -214,12 +214,36 @@ impl<'a> DocGen<'a> {
     fn href(&mut self) -> String {
         let n = self.next_href;
         self.next_href += 1;
-        // digits and '/' only: disjoint from the token alphabet
-        match self.rng.below(4) {
+        // digits, '/', and wide katakana: all disjoint from the token alphabet
+        match self.rng.below(6) {
             0 => format!("/{}", n),
             1 => format!("/{}/{}", n, self.rng.below(100000)),
             2 => format!("{}", 1000 + n),
-            _ => format!("/{}/{}/{}", n, 12345678, 87654321),
+            3 => format!("/{}/{}/{}", n, 12345678, 87654321),
+            4 => {
+                // wide characters at varying offsets (footnote wrapping at a 2-column boundary)
+                let mut s = format!("/{}", n);
+                for _ in 0..self.rng.range(2, 12) {
+                    if self.rng.chance(1, 2) {
+                        s.push(*self.rng.pick(&['テ', 'ス', 'ト', 'ペ', 'ジ']));
+                    } else {
+                        s.push((b'0' + self.rng.below(10) as u8) as char);
+                    }
+                }
+                s
+            }
+            _ => format!("/{}", n),
+        }
+    }
+
+    /// An empty element that only carries an id / anchor name (no content).
+    pub fn empty_anchor(&mut self) -> Node {
+        let name = format!("e{}", self.next_id);
+        self.next_id += 1;
+        match self.rng.below(3) {
+            0 => El::new("span").attr("id", &name).node(),
+            1 => El::new("a").attr("name", &name).node(),
+            _ => El::new("div").attr("id", &name).node(),
         }
     }
 
@@ -525,7 +549,14 @@ impl<'a> DocGen<'a> {
 
     pub fn document(&mut self) -> Vec<Node> {
         let mb = self.p.max_blocks;
-        self.flow(0, mb)
+        let mut d = self.flow(0, mb);
+        // documents with ids sometimes contain empty anchors, also at the very end
+        if self.p.id_permille > 0 && self.rng.chance(1, 4) {
+            let at = if self.rng.chance(1, 2) { d.len() } else { self.rng.below(d.len() + 1) };
+            let a = self.empty_anchor();
+            d.insert(at, a);
+        }
+        d
     }
 }
 
